@@ -13,6 +13,7 @@ import (
 	"regexp"
 	"sort"
 	"strings"
+	"sync"
 	"time"
 
 	"verifharness/internal/ev"
@@ -197,6 +198,8 @@ func Main(args []string) int {
 	}
 	r.Set("worker_processes", len(procs))
 	failed := false
+	watchdogged := map[int]bool{} // workers ended by the parent's wall-clock watchdog: their last item did not "die"
+	var wdMu sync.Mutex
 	ev.Parallel(len(procs), 4, func(i int) {
 		p := procs[i]
 		// a different document order in every process: different histories
@@ -210,11 +213,14 @@ func Main(args []string) int {
 		jf := filepath.Join(scratch, fmt.Sprintf("job%d.json", i))
 		os.WriteFile(jf, jb, 0o644)
 		env := genlab.GoEnv(fmt.Sprintf("GOMAXPROCS=%d", p.c.procs), "GORACE=halt_on_error=0 log_path="+p.log)
-		out, err := genlab.RunIn(mod.Dir, 60*time.Minute, env, bin, jf)
+		out, err := genlab.RunIn(mod.Dir, 4*time.Hour, env, bin, jf)
 		if err != nil && !strings.Contains(err.Error(), "exit status 66") && !strings.Contains(err.Error(), "exit status 4") {
 			// exit status 4 = the worker's own watchdog gave up on an item (logged with stage "hang", decided below)
 			// exit status 66 = race detector found something (reported below from the log)
 			if strings.Contains(err.Error(), "watchdog") {
+				wdMu.Lock()
+				watchdogged[i] = true
+				wdMu.Unlock()
 				r.Inconclusive("worker-watchdog", fmt.Sprintf("GOMAXPROCS=%d", p.c.procs))
 			} else {
 				fmt.Printf("worker %d (GOMAXPROCS=%d) ended with %v\n%s\n", i, p.c.procs, err, tail(out, 3000))
@@ -268,7 +274,7 @@ func Main(args []string) int {
 			byID[l.ID] = append(byID[l.ID], o)
 		}
 		f.Close()
-		if last != "" {
+		if last != "" && !watchdogged[i] {
 			started[fmt.Sprintf("proc%d", i)] = last
 		}
 	}
